@@ -11,6 +11,7 @@ import (
 	"sync"
 	"time"
 
+	jsync "github.com/openebs/jiva/sync"
 	"github.com/openebs/jiva/types"
 )
 
@@ -447,6 +448,8 @@ func (x *SExec) apply(i int, op SOp) *Fail {
 		return x.doRace(i, op)
 	case "rebuild":
 		return x.doRebuild(i, op)
+	case "sysrebuild":
+		return x.doSysRebuild(i, op)
 	case "setmode":
 		n := op.Node % len(st.Nodes)
 		addr := st.Nodes[n].Addr
@@ -1527,6 +1530,149 @@ func (x *SExec) doRebuild(i int, op SOp) *Fail {
 	}
 	if op.On {
 		x.punchEver = true
+	}
+	return nil
+}
+
+// ---- C07 system tier: the product's own sync.Task.AddReplica ---------------------
+
+// doSysRebuild lets a detached (closed) node run the product's AddReplica flow
+// (register/create, prepare rebuild, file transfer through real sync agents and
+// ssync children, reload, LUN map update, verification) while op.N foreground
+// writes go through the controller. op.Node = node, op.Reps == 1 = aligned writes.
+func (x *SExec) doSysRebuild(i int, op SOp) *Fail {
+	st := x.St
+	if err := st.EnableSystem(); err != nil {
+		panic(err)
+	}
+	n := op.Node % len(st.Nodes)
+	node := st.Nodes[n]
+	if x.Mode[n] != "" || x.woNode() >= 0 || x.listed() >= x.P.RF || x.nRW() == 0 {
+		return nil
+	}
+	if node.S.Replica() != nil {
+		node.DropConn()
+		if node.S.Replica() != nil {
+			node.fixDrainer()
+			node.S.Close()
+		}
+	}
+	src := -1
+	for j, m := range x.Mode {
+		if m == types.RW {
+			src = j
+		}
+	}
+	punchBefore := types.ShouldPunchHoles
+	task := jsync.NewTask(st.CtrlURL())
+	done := make(chan error, 1)
+	t0 := time.Now()
+	go func() { done <- task.AddReplica(node.Addr, node.S) }()
+	// wait until the controller lists it (WO), then foreground writes run alongside the transfer
+	listedWO := false
+	for time.Since(t0) < 20*time.Second {
+		if m := st.Mode(n); m == types.WO || m == types.RW {
+			listedWO = true
+			break
+		}
+		select {
+		case err := <-done:
+			done <- err
+			goto finished
+		default:
+		}
+		time.Sleep(5 * time.Millisecond)
+	}
+finished:
+	if listedWO {
+		x.Mode[n] = types.WO
+		x.AttAck[n] = len(x.Acked)
+		x.AttLog[n] = len(node.LogCopy())
+		delete(x.subBlockWO, n)
+		node.fixDrainer()
+	}
+	var werr *Fail
+	if listedWO && !x.readOnly() {
+		for q := 0; q < int(op.N); q++ {
+			if st.Mode(n) == types.RW {
+				x.Mode[n] = types.RW
+			}
+			if f := x.fgWrite(i, op.Seed, q+1, op.Reps == 1); f != nil {
+				werr = f
+				break
+			}
+			time.Sleep(time.Duration(op.Len) * time.Millisecond)
+		}
+	}
+	var err error
+	select {
+	case err = <-done:
+	case <-time.After(120 * time.Second):
+		return sfail("sysrebuild|hangs", "sync.Task.AddReplica did not return within 120 s", "C07")
+	}
+	node.fixDrainer()
+	types.ShouldPunchHoles = punchBefore
+	x.tracef("sysrebuild n%d from n%d writes=%d aligned=%v -> %v (%v)", n, src, op.N, op.Reps == 1, err, time.Since(t0).Round(time.Millisecond))
+	if werr != nil {
+		return werr
+	}
+	if err != nil {
+		// the rebuild ended by its own error path: the replica must not be in the read path
+		x.Labels["sysrebuild:failed"]++
+		if m := st.Mode(n); m == types.RW {
+			return sfail("sysrebuild|failed-but-promoted", fmt.Sprintf("AddReplica returned %v but the replica is listed RW", err), "C07")
+		}
+		if listedWO {
+			st.C.RemoveReplica(node.Addr)
+			x.detach(n)
+		}
+		return sfail("sysrebuild|failed", fmt.Sprintf("the product's rebuild of n%d failed without any injected fault: %v", n, err), "C07")
+	}
+	if m := st.Mode(n); m != types.RW {
+		return sfail("sysrebuild|returned-ok-not-promoted", fmt.Sprintf("AddReplica returned nil but n%d is listed as %q", n, m), "C07")
+	}
+	x.Mode[n] = types.RW
+	x.Labels["promote:ok"]++
+	x.Labels["sysrebuild:promoted"]++
+	// promoted replica equals its source
+	s, d := st.Nodes[src], node
+	ca, cb := s.S.Replica().GetRevisionCounter(), d.S.Replica().GetRevisionCounter()
+	if ca != cb {
+		return sfail("rebuild|counter-mismatch", fmt.Sprintf("promoted n%d has revision counter %d, source n%d has %d", n, cb, src, ca), "C07", "C10")
+	}
+	size := x.Live.size()
+	bb := make([]byte, size)
+	if _, err := d.S.ReadAt(bb, 0); err != nil {
+		return sfail("rebuild|target-unreadable", err.Error(), "C07")
+	}
+	if dd := x.Live.Diff(bb, 0); dd != "" {
+		if x.subBlockWO[n] {
+			return sfail("rebuild|sub-block-write-while-rebuilding|promoted-image-differs", fmt.Sprintf("a write that is not 4 KiB aligned was acknowledged while n%d was rebuilding; the promoted replica's image differs from the acknowledged data: %s", n, dd), "C07")
+		}
+		return sfail("rebuild|promoted-image-differs", fmt.Sprintf("promoted n%d does not hold every acknowledged write: %s", n, dd), "C07")
+	}
+	sc2, _ := s.S.Replica().Chain()
+	dc2, _ := d.S.Replica().Chain()
+	if strings.Join(sc2[1:], ",") != strings.Join(dc2[1:], ",") {
+		return sfail("rebuild|chains-differ", fmt.Sprintf("source chain %v, promoted chain %v", sc2, dc2), "C07")
+	}
+	sd := s.S.Replica().ListDisks()
+	for _, snap := range sc2[1:] {
+		if !sd[snap].UserCreated {
+			continue // reclamation is on in the product flow: automatic snapshots may be thinned
+		}
+		ia, err := ReadDiskImage(s.Dir, snap, size)
+		if err != nil {
+			return sfail("rebuild|snapshot-unreadable", err.Error(), "C07")
+		}
+		ib, err := ReadDiskImage(d.Dir, snap, size)
+		if err != nil {
+			return sfail("rebuild|snapshot-unreadable-on-target", err.Error(), "C07")
+		}
+		if !bytes.Equal(ia, ib) {
+			return sfail("rebuild|snapshot-differs", fmt.Sprintf("snapshot %s differs between source n%d and promoted n%d", snap, src, n), "C07")
+		}
+		x.Labels["rebuild:snapshot-compared"]++
 	}
 	return nil
 }
